@@ -48,12 +48,32 @@ class Part:
         return self.res
 
 
+_port_rng = random.Random(os.getpid() * 7919 + int(time.time() * 1000) % 100003)
+
+
 def free_port():
+    """A port for a daemon the driver is about to start.  Taken from below the ephemeral range (32768-60999 here), so that no
+    outgoing connection of any program can be given the same number between this probe and the daemon's bind."""
+    for _ in range(200):
+        p = _port_rng.randrange(20000, 32000)
+        s = socket.socket()
+        try:
+            s.bind(("0.0.0.0", p))
+        except OSError:
+            s.close()
+            continue
+        s.close()
+        return p
     s = socket.socket()
     s.bind(("127.0.0.1", 0))
     p = s.getsockname()[1]
     s.close()
     return p
+
+
+def bind_trouble(output):
+    """The daemon could not get the port the driver chose for it: environment, never a verdict."""
+    return "error 98" in output or "Address already in use" in output or "Failed to bind" in output
 
 
 def san_env(rundir, tag):
@@ -674,7 +694,10 @@ def c32(ctx):
                 part.sig(kind, depth, use_env)
                 continue
             if not wait_control(cport, 20):
-                part.violation("C32:daemon:valid-configuration-did-not-start", dict(detail, output=d.output()[-600:]), i)
+                if bind_trouble(d.output()):
+                    part.inconclusive("daemon could not bind the port chosen by the driver (case %d)" % i)
+                else:
+                    part.violation("C32:daemon:valid-configuration-did-not-start", dict(detail, output=d.output()[-600:]), i)
                 continue
             tok = expected.get("TOKEN")
             head = "COMMAND:DEFAULTS\n" + ("TOKEN:%s\n" % tok if tok else "") + "\n"
